@@ -6,7 +6,7 @@
    - the reported best satisfies the constraints (it is a fixed point of the constraints function);
    - the last step-monitor record is the reported best. *)
 From Coq Require Import List ZArith Bool Lia.
-From MV Require Import Common.Num Common.Order Core.Machine Core.Machine_Proofs Core.DE_Proofs Core.NM.
+From MV Require Import Common.Num Common.Order Core.Machine Core.Machine_Proofs Core.Stop_Proofs Core.DE_Proofs Core.NM.
 Import ListNotations.
 Open Scope Z_scope.
 
@@ -124,13 +124,28 @@ Section NMProofs.
     - rewrite nth_overflow by exact Hge. left. exact Hinf.
   Qed.
 
+  Lemma insert_in (a q : vec * E) : forall l, In q (insert_e N a l) <-> q = a \/ In q l.
+  Proof.
+    induction l as [|b r IH]; simpl; [intuition congruence|].
+    destruct (ltb N (snd b) (snd a)); simpl; [rewrite IH|]; intuition congruence.
+  Qed.
+  Lemma isort_in (q : vec * E) : forall l, In q (isort N l) <-> In q l.
+  Proof.
+    induction l as [|a l IH]; simpl; [tauto|]. rewrite insert_in, IH. intuition congruence.
+  Qed.
+  Lemma insert_length (a : vec * E) : forall l, length (insert_e N a l) = S (length l).
+  Proof. induction l as [|b r IH]; simpl; auto. destruct (ltb N (snd b) (snd a)); simpl; auto. Qed.
+  Lemma isort_length : forall l, length (isort N l) = length l.
+  Proof. induction l as [|a l IH]; simpl; auto. now rewrite insert_length, IH. Qed.
+
   Lemma finish_post s0 s p l : ext s0 s -> u_cons N s = cons0 -> Forall (evald s) l ->
     Post s0 (run_prog inf true s (finish N inf p l)).
   Proof.
     intros He Hc Hl. unfold finish.
-    set (sl := if valid_perm N inf p l then apply_perm N inf p l else []).
+    set (sl := if valid_perm N inf p l then apply_perm N inf p l else isort N l).
     assert (Hsl : Forall (evald s) sl).
-    { subst sl. destruct (valid_perm N inf p l); [apply apply_perm_evald; exact Hl|constructor]. }
+    { subst sl. destruct (valid_perm N inf p l); [apply apply_perm_evald; exact Hl|].
+      apply Forall_forall. intros q Hq. apply (proj1 (isort_in q l)) in Hq. exact (proj1 (Forall_forall _ _) Hl q Hq). }
     destruct sl as [|[x0 f0] r].
     - cbn [run_prog]. split; [exact He|split; [split; [|split]|]]; cbn [fst snd sim fsim combine].
       + constructor.
@@ -367,18 +382,51 @@ Section NMOrder.
   Definition not_worse (f0 : E) (r : sys * (nm * list (vec * E))) : Prop :=
     sim N (fst (snd r)) = [] \/ ltb N f0 (snd (nm_best N inf (fst (snd r)))) = false.
 
+  Lemma asym x y : ltb N x y = true -> ltb N y x = false.
+  Proof.
+    intros H. destruct (ltb N y x) eqn:Eyx; auto.
+    pose proof (sw_trans E (ltb N) Hord _ _ _ H Eyx) as K. rewrite (sw_irrefl E (ltb N) Hord) in K. discriminate.
+  Qed.
+
+  Lemma insert_sorted (a : vec * E) : forall l, sorted_e N l = true -> sorted_e N (insert_e N a l) = true.
+  Proof.
+    induction l as [|b r IH]; intros Hs; [reflexivity|].
+    cbn [insert_e]. destruct (ltb N (snd b) (snd a)) eqn:Eba.
+    - (* b stays in front *)
+      assert (Hr : sorted_e N r = true) by (destruct r; [reflexivity|cbn [sorted_e] in Hs; apply andb_true_iff in Hs; tauto]).
+      specialize (IH Hr).
+      destruct r as [|c r']; cbn [insert_e] in *.
+      + cbn [sorted_e]. rewrite (asym _ _ Eba). reflexivity.
+      + destruct (ltb N (snd c) (snd a)) eqn:Eca.
+        * cbn [sorted_e] in Hs |- *. apply andb_true_iff in Hs as [Hbc _]. rewrite Hbc. exact IH.
+        * cbn [sorted_e] in IH |- *. rewrite (asym _ _ Eba). exact IH.
+    - cbn [sorted_e]. rewrite Eba. exact Hs.
+  Qed.
+  Lemma isort_sorted : forall l, sorted_e N (isort N l) = true.
+  Proof. induction l as [|a l IH]; [reflexivity|]. cbn [isort fold_right]. apply insert_sorted. exact IH. Qed.
+
+  Lemma insert_in' (a q : vec * E) : forall l, In q (insert_e N a l) <-> q = a \/ In q l.
+  Proof.
+    induction l as [|b r IH]; simpl; [intuition congruence|].
+    destruct (ltb N (snd b) (snd a)); simpl; [rewrite IH|]; intuition congruence.
+  Qed.
+  Lemma isort_in' (q : vec * E) : forall l, In q (isort N l) <-> In q l.
+  Proof. induction l as [|a l IH]; simpl; [tauto|]. rewrite insert_in', IH. intuition congruence. Qed.
+
   Lemma finish_min s p l x f0 : In (x, f0) l -> not_worse f0 (run_prog inf true s (finish N inf p l)).
   Proof.
     intros Hin. unfold finish, not_worse.
-    destruct (valid_perm N inf p l) eqn:Hv; [|left; reflexivity].
-    unfold valid_perm in Hv. apply andb_true_iff in Hv as [Hp Hs].
-    destruct (apply_perm N inf p l) as [|[y0 g0] r] eqn:Ea; [left; reflexivity|].
+    set (sl := if valid_perm N inf p l then apply_perm N inf p l else isort N l).
+    assert (Hq : In (x, f0) sl /\ sorted_e N sl = true).
+    { subst sl. destruct (valid_perm N inf p l) eqn:Hv.
+      - unfold valid_perm in Hv. apply andb_true_iff in Hv as [Hp Hs]. split; [|exact Hs].
+        destruct (In_nth l (x, f0) ([], inf) Hin) as (i & Hi & Hn).
+        unfold apply_perm. apply in_map_iff. exists i. split; [exact Hn|]. eapply is_perm_in; eauto.
+      - split; [apply isort_in'; exact Hin|apply isort_sorted]. }
+    destruct Hq as [Hq Hs].
+    destruct sl as [|[y0 g0] r]; [left; reflexivity|].
     cbn [run_prog fst snd sim fsim map nm_best hd]. right.
-    (* (x, f0) occurs in the permuted list *)
-    destruct (In_nth l (x, f0) ([], inf) Hin) as (i & Hi & Hn).
-    assert (Hq : In (x, f0) (apply_perm N inf p l)).
-    { unfold apply_perm. apply in_map_iff. exists i. split; [exact Hn|]. eapply is_perm_in; eauto. }
-    rewrite Ea in Hq. destruct Hq as [Hq|Hq].
+    destruct Hq as [Hq|Hq].
     - injection Hq as _ Hq. subst g0. apply (sw_irrefl E (ltb N) Hord).
     - pose proof (sorted_head_min r (y0, g0) Hs) as Hm. rewrite Forall_forall in Hm. exact (Hm _ Hq).
   Qed.
@@ -429,3 +477,88 @@ Section NMOrder.
       { apply evalc_nw. intros s2 x1' fxcc. destruct (ltb N fxcc _); [eapply finish_min; apply in_replace_last|apply Hshrink]. }
   Qed.
 End NMOrder.
+
+(* C05 for Nelder-Mead: Solve always returns.  Every _Step on a non-empty simplex logs exactly one record and leaves a non-empty
+   simplex, for every candidate stream and every argsort answer. *)
+Section NMSolve.
+  Variable N : Num.
+  Variable inf : T N.
+  Notation E := (T N).
+  Notation vec := (vec N).
+  Notation sys := (sys N).
+  Notation nm := (nm N).
+  Notation A := (nm_algo N inf).
+
+  Definition G_nm (c : nm) : Prop := sim N c <> [] /\ length (sim N c) = length (fsim N c).
+  Definition Q_nm (r : sys * (nm * list (vec * E))) : Prop := length (snd (snd r)) = 1%nat /\ G_nm (fst (snd r)).
+
+  Lemma insert_length' (a : vec * E) : forall l, length (insert_e N a l) = S (length l).
+  Proof. induction l as [|b r IH]; simpl; auto. destruct (ltb N (snd b) (snd a)); simpl; auto. Qed.
+  Lemma isort_length' : forall l, length (isort N l) = length l.
+  Proof. induction l as [|a l IH]; simpl; auto. now rewrite insert_length', IH. Qed.
+
+  Lemma finish_Q s p l : l <> [] -> Q_nm (run_prog inf true s (finish N inf p l)).
+  Proof.
+    intros Hl. unfold finish.
+    set (sl := if valid_perm N inf p l then apply_perm N inf p l else isort N l).
+    assert (Hlen : length sl = length l).
+    { subst sl. destruct (valid_perm N inf p l) eqn:Hv; [|apply isort_length'].
+      unfold valid_perm, is_perm in Hv. apply andb_true_iff in Hv as [Hv _]. apply andb_true_iff in Hv as [Hv _].
+      apply Nat.eqb_eq in Hv. unfold apply_perm. now rewrite map_length. }
+    destruct sl as [|[x0 f0] r]; [destruct l; [congruence|discriminate]|].
+    cbn [run_prog fst snd]. split; [reflexivity|]. split; cbn [sim fsim fst snd map]; [discriminate|].
+    cbn [length]. now rewrite !map_length.
+  Qed.
+
+  Lemma evalc_Q s ip x k : (forall s1 x' e, Q_nm (run_prog inf true s1 (k x' e))) -> Q_nm (run_prog inf true s (evalc N ip x k)).
+  Proof. intros Hk. unfold evalc. cbn [run_prog]. destruct ip; cbn [run_prog]; apply Hk. Qed.
+
+  Lemma replace_last_nonempty (l : list (vec * E)) p : replace_last N l p <> [].
+  Proof. unfold replace_last. destruct (removelast l); discriminate. Qed.
+
+  Lemma nm_step_Q s c i : G_nm c -> Q_nm (run_prog inf true s (nm_step N inf s c i)).
+  Proof.
+    intros [Hne Hlen]. unfold nm_step. cbv zeta.
+    destruct (stepmon N s) as [|sm0 smr].
+    - cbn [run_prog fst snd]. split; [reflexivity|]. split; cbn [sim fsim]; [discriminate|]. simpl. now rewrite !repeat_length.
+    - destruct (Nat.pred (length (sm0 :: smr))).
+      + rewrite (bind_run_t' N inf). apply finish_Q. discriminate.
+      + destruct (combine (sim N c) (fsim N c)) as [|[x0 f0] rest] eqn:El.
+        * exfalso. destruct (sim N c) as [|a sr]; [congruence|]. destruct (fsim N c); [discriminate|discriminate].
+        * cbn [run_prog].
+          assert (Hshrink : forall s1 x0c, Q_nm (run_prog inf true s1
+                    (bind (evalc_all N (inpl N i) (firstn (length rest) (skipn 2 (cands N i))))
+                          (fun vs => finish N inf (perm N i) ((x0c, f0) :: vs))))).
+          { intros s1 x0c. rewrite (bind_run_t' N inf). apply finish_Q. discriminate. }
+          apply evalc_Q. intros s1 xr' fxr.
+          destruct (ltb N fxr f0).
+          { apply evalc_Q. intros s2 x1' fxe. destruct (ltb N fxe fxr); apply finish_Q; apply replace_last_nonempty. }
+          destruct (ltb N fxr _).
+          { apply finish_Q; apply replace_last_nonempty. }
+          destruct (ltb N fxr _).
+          { apply evalc_Q. intros s2 x1' fxc. destruct (Num.leb N fxc fxr); [apply finish_Q; apply replace_last_nonempty|apply Hshrink]. }
+          { apply evalc_Q. intros s2 x1' fxcc. destruct (ltb N fxcc _); [apply finish_Q; apply replace_last_nonempty|apply Hshrink]. }
+  Qed.
+
+  Theorem nm_solve_terminates : forall f s c is dflt mi mf,
+    G_nm c -> Forall (fun i => ndeco N i = None) is -> ndeco N dflt = None ->
+    abs_limits N mi mf s -> (0 <= mi)%Z ->
+    (Z.to_nat (mi + 3) <= S f + ehlen N _ _ A s c)%nat ->
+    snd (solve N inf _ _ A (S f) s c is dflt) = true.
+  Proof.
+    refine (solve_terminates N inf _ _ A G_nm (fun i => ndeco N i = None) _ _ _ _ _ _).
+    - (* progress *)
+      intros s c i HG _. cbv zeta. cbn [a_nested a_step nm_algo].
+      destruct (nm_step_Q s c i HG) as [Hrec HG'].
+      destruct (run_prog_cfg N inf true _ (nm_step N inf s c i) s) as (_ & _ & Hs). cbv zeta in Hs.
+      split; [|exact HG'].
+      unfold ehlen, energy_history. cbn [stepmon set_stepmon a_ehist_extra nm_algo]. rewrite Hs.
+      rewrite !app_nil_r, map_app, app_length, !map_length, Hrec. lia.
+    - intros s c. cbn [a_finalize nm_algo fst snd]. unfold ehlen, energy_history. cbn [stepmon set_stepmon].
+      rewrite (app_nil_r (stepmon N s)). apply Nat.le_refl.
+    - intros s c i. reflexivity.
+    - intros s c i HG Hi. cbn [a_decorate nm_algo]. unfold nm_decorate. rewrite Hi. exact HG.
+    - intros s c HG. exact HG.
+    - intros c. simpl. lia.
+  Qed.
+End NMSolve.
